@@ -80,7 +80,7 @@ CHECKS = {
             'ledger equal to the run without B), single exclusive operation in flight (also: no entry accepted while '
             'work started by an ended operation still runs), slot freed after every ending, incl. a reloadconfig '
             'that found the [circus] section edited, a periodic check of an arbiter without watchers, the same '
-            'operation repeated after 30 s .. 1 h of virtual time, and requests sent as casts. Requests after a stop that failed half-way (stream close fails), requests arriving while the periodic check starts an on-demand watcher (real listening socket inside the simulated world), captured watchers whose helper holds the pipes.',
+            'operation repeated after 30 s .. 1 h of virtual time, and requests sent as casts. Requests after a stop that failed half-way (stream close fails), requests arriving while the periodic check starts an on-demand watcher (real listening socket inside the simulated world), captured watchers whose helper holds the pipes; requests during a reloadconfig that still stops a watcher.',
             'Whether A is in flight is sampled when handle_message is entered for B; arbiter-wide restart is LIVE-only.'),
     'C11': ('SIM', 'exploration',
             'runtime monitoring: protocol snapshot + kernel ledger before/after every request answered with an error, '
@@ -123,7 +123,7 @@ CHECKS = {
             'start/restart of all, by glob and by regex; deaths injected during the sequence; starts that fail '
             'half-way (hook refusing the n-th spawn, after_start false); restart/start requests fired at a '
             'periodic check that is respawning the watcher; watchers removed/added at run time before the group '
-            'operation; 130-process watchers; wall-clock steps during the sequence. LIVE: the daemon start of a real circusd (its own loop): autostart = False watchers stay stopped, negative priorities come last, priority order judged where the earlier watcher pauses 1 s per spawn.',
+            'operation; 130-process watchers; wall-clock steps during the sequence. LIVE: the daemon start of a real circusd (its own loop): autostart = False watchers stay stopped, negative priorities come last, priority order judged where the earlier watcher pauses 1 s per spawn. SIM: the start order of several on-demand watchers behind one real socket.',
             'Virtual clock; spawn cost is modelled by hooks that consume virtual time.'),
     'C12': ('SIM+LIVE', 'exploration',
             'runtime monitoring: differential comparison of the reloaded daemon with a fresh simulated daemon started '
@@ -133,7 +133,7 @@ CHECKS = {
             'reloadconfig the protocol view must equal a fresh start, untouched watchers keep their pids, '
             'numprocesses-only edits move only the difference (also when a worker was SIGKILLed just before the '
             'request), unchanged files cause no kernel activity; stream options, mixed-case names and env values '
-            'with $VAR references are in the edit alphabet. LIVE: reloadconfig on a real circusd started with --log-level / --log-output (unchanged file, then an edited and an added watcher).',
+            'with $VAR references are in the edit alphabet. LIVE: reloadconfig on a real circusd started with --log-level / --log-output (unchanged file, then an edited and an added watcher). Programs that do not exist and their repair.',
             'What a file means is taken from get_config (C16 checks that against the documentation).'),
     'C13': ('REF+SIM', 'exploration',
             'runtime monitoring: Process.format_args vs an independent argv model on enumerated token sequences; '
@@ -197,7 +197,7 @@ CHECKS = {
             'buffer) on both channels while a sibling watcher is restarted/reloaded/SIGKILLed for 25-120 generations; '
             'one writer closes a pipe early, one ends with a burst of exactly two read buffers, three exit by themselves '
             'while a helper child holds their pipes, the streams of one running writer are replaced; a heartbeat + '
-            'watchdog thread reports a blocked loop. A writer whose pipes get descriptor numbers above 1024; one stream object configured for both channels.',
+            'watchdog thread reports a blocked loop. A writer whose pipes get descriptor numbers above 1024; one stream object configured for both channels; equal configurations with a stream each.',
             'Only workers that keep running are judged; the leak measure is the fd-count growth after generation 10.'),
 }
 
